@@ -36,8 +36,11 @@ var cliRuns atomic.Int64
 // runAtlas runs the CLI in dir `cwd` with a private TMPDIR (SQLite advisory lock files live there).
 func runAtlas(e *Env, cwd string, env map[string]string, args ...string) cliOut {
 	cliRuns.Add(1)
-	tmp, _ := os.MkdirTemp(cwd, "tmp")
-	defer os.RemoveAll(tmp)
+	tmp := env["VERIF_TMPDIR"] // a TMPDIR shared between runs (the advisory lock file of a killed run stays behind)
+	if tmp == "" {
+		tmp, _ = os.MkdirTemp(cwd, "tmp")
+		defer os.RemoveAll(tmp)
+	}
 	ctx, cancel := context.WithTimeout(context.Background(), 60*time.Second)
 	defer cancel()
 	cmd := exec.CommandContext(ctx, e.Atlas, args...)
@@ -45,6 +48,9 @@ func runAtlas(e *Env, cwd string, env map[string]string, args ...string) cliOut 
 	cmd.Env = []string{"HOME=" + cwd, "TMPDIR=" + tmp, "ATLAS_NO_UPDATE_NOTIFIER=1", "ATLAS_NO_UPGRADE_SUGGESTIONS=1", "PATH=/usr/bin:/bin"}
 	trace := ""
 	for k, v := range env {
+		if k == "VERIF_TMPDIR" {
+			continue
+		}
 		cmd.Env = append(cmd.Env, k+"="+v)
 		if k == "VERIF_TRACE" {
 			trace = v
